@@ -491,7 +491,11 @@ class TU:
             if d.get('kind') == 'VarDecl' and 'init' in d:
                 inner = [x for x in d.get('inner', []) if x.get('kind') == 'InitListExpr']
                 if inner:
-                    vals = [self.fold_node(x) for x in inner[0].get('inner', [])]
+                    items = inner[0]['array_filler'][1:] if inner[0].get('array_filler') else inner[0].get('inner', [])
+                    vals = [self.fold_node(x) for x in items]
+                    m_ = re.search(r'\[(\d+)\]\s*$', nty(d) or '')
+                    if inner[0].get('array_filler') and m_ and len(vals) < int(m_.group(1)):
+                        vals += [0] * (int(m_.group(1)) - len(vals))
                     if all(v is not None for v in vals):
                         return vals
         raise AnalysisError('anchor vanished: constant array %s' % qual)
@@ -1040,7 +1044,9 @@ class Lowerer:
                 return args[0]
             return E('init', _clean_type(ty), args, loc=loc, ty=ty, raw=n)
         if k == 'InitListExpr':
-            args = [self.expr(a) for a in inner]
+            # an array with fewer initialisers than elements: clang lists the filler first, then the initialisers, under 'array_filler'
+            items = n['array_filler'][1:] if n.get('array_filler') else inner
+            args = [self.expr(a) for a in items]
             return E('init', _clean_type(ty), args, loc=loc, ty=ty, raw=n)
         if k == 'ImplicitValueInitExpr':
             return E('const', 0, loc=loc, ty=ty)
